@@ -17,7 +17,13 @@ def run_property(pid: str, tier: str, repo: Repo, quiet: bool = False) -> Check:
     ck = Check(pid, tier, repo, explanation=getattr(mod, "EXPLANATION", ""), trusted=getattr(mod, "TRUSTED", []), quiet=quiet)
     for rid, text in getattr(mod, "RULES", {}).items():
         ck.rule(rid, text)
-    mod.run(ck, repo, tier)
+    try:
+        mod.run(ck, repo, tier)
+    except AnalysisError as e:
+        ck.incomplete.append(str(e))
+    if ck.incomplete and not ck.unlisted_violations():
+        # nothing definite was found and part of the analysis could not be carried out: undecided
+        raise AnalysisError("; ".join(ck.incomplete))
     return ck
 
 
